@@ -16,7 +16,7 @@ AF4, AF6 = int(socket.AF_INET), int(socket.AF_INET6)
 V4S = ['192.0.2.10', '10.1.2.3', '127.0.0.1', '203.0.113.255']
 V6S = ['2001:db8::1', '::1', 'fe80::1234:5678:9abc:def0', '2001:0db8:0000:0000:0000:ff00:0042:8329', '2001:db8:0:0:1:0:0:1', '1:2:3:4:5:6:7::', '::2:3:4:5:6:7:8', '2001:db8::', '::ffff:192.0.2.128']
 POLICY = 'Hardened OpenSSH Server v9.9 (version 1)'
-NAMES = ['host.example', 'srv-01', 'a.b.c.example.org', 'localhost', 'xn--nxasmq6b.example']
+NAMES = ['host.example', 'srv-01', 'a.b.c.example.org', 'localhost', 'xn--nxasmq6b.example', 'b\u00fccher.example', 'm\u00fcnchen.example.org', '\u4f8b\u3048.example']
 
 
 def spell(host, port, spelling):
@@ -54,6 +54,8 @@ def setup_net(case):
             net.scopes[ll[1]] = 2 + abs(hash_str(host)) % 5
             ips = {'v4': [v4], 'v6': [v6], 'both46': [v4, v6], 'both64': [v6, v4], 'mixed464': [v4, v6, v4b], 'mixed646': [v6, v4, v6b], 'many': [v6, v6b, v4, v4b], 'linklocal': [ll], 'linklocal+v4': [ll, v4]}[r]
             net.resolve[host] = ips
+            if case.get('resolver_hiccup'):
+                net.transient_failures[host] = 1
         for af, ip in ips:
             if 1 <= port <= 65535:
                 net.servers[(ip, port)] = srv1 if t.get('ssh1') else srv
@@ -84,6 +86,9 @@ def eval_case(case):
             if case.get('noise'):
                 lines.append(['', '   ', '\t'][i % 3])
             lines.append((('  ' if case.get('noise') else '') + t['text'] + ('  ' if case.get('noise') and i % 2 else '')))
+        if case.get('padding'):
+            # a file far larger than any read buffer: thousands of blank and whitespace-only lines between the entries
+            lines = [x for l in lines for x in ([l] + [' ' * (7 + i % 30) for i in range(case['padding'])])]
         text = '\n'.join(lines) + ('\n' if not case.get('noise') else '\n\n  \n')
         if case.get('noise') and len(targets) % 2 == 0:
             text = text.replace('\n', '\r\n')          # a targets file written on Windows
@@ -99,7 +104,7 @@ def eval_case(case):
         if path:
             os.unlink(path)
     invalid = [t for t in targets if not (1 <= t['eport'] <= 65535)] or (case['p_opt'] is not None and not (1 <= case['p_opt'] <= 65535))
-    cl = (['view:' + ' '.join(case['view'])] if case.get('view') else []) + (['link-local'] if any(t.get('resolver', '').startswith('linklocal') and not (':' in t['host'] or t['host'][0].isdigit()) for t in targets) else []) + (['has-ssh1-target'] if any(t.get('ssh1') for t in targets) else []) + ['where:' + case['where'], 'fam:' + (fam or 'none'), 'json' if case['json'] else 'text', 'policy-audit' if case.get('policy') else 'standard-audit'] + ['spell:' + t['spelling'] for t in targets[:1]] + (['invalid-port'] if invalid else []) + (['-p'] if case['p_opt'] is not None else [])
+    cl = (['resolver-hiccup'] if case.get('resolver_hiccup') else []) + (['padded-file'] if case.get('padding') else []) + (['non-ascii-name'] if any(ord(ch) > 127 for t in targets for ch in t['host']) else []) + (['view:' + ' '.join(case['view'])] if case.get('view') else []) + (['link-local'] if any(t.get('resolver', '').startswith('linklocal') and not (':' in t['host'] or t['host'][0].isdigit()) for t in targets) else []) + (['has-ssh1-target'] if any(t.get('ssh1') for t in targets) else []) + ['where:' + case['where'], 'fam:' + (fam or 'none'), 'json' if case['json'] else 'text', 'policy-audit' if case.get('policy') else 'standard-audit'] + ['spell:' + t['spelling'] for t in targets[:1]] + (['invalid-port'] if invalid else []) + (['-p'] if case['p_opt'] is not None else [])
     v6 = any(':' in t['host'] for t in targets)
     nt = v6 or bool(fam) or (case['where'] == 'file' and case['p_opt'] is not None) or bool(invalid)
     if r.hang:
@@ -166,6 +171,8 @@ def eval_case(case):
         ips = net.resolve.get(t['host']) or [(AF6 if ':' in t['host'] else AF4, t['host'])]
         usable = [a for a, _ in ips if a in allowed]
         got = by_target.get(t['text'], [])
+        if usable and not got and not fails and case.get('resolver_hiccup') and r.code not in (0, 2, 3):
+            continue        # the resolver was briefly unavailable: giving up on the target (with a failing status) is one of the two honest outcomes
         if usable and not got and not fails:
             fails.append(['no-connection-attempt-to-named-target', 'argv %r target %r (exit %d, out %r)' % (argv, t['text'], r.code, r.out[-200:])])
         if got and len(order) == 2 and len(set(usable)) == 2:
@@ -176,6 +183,8 @@ def eval_case(case):
                 # each later connection (host-key / group-exchange probes) is a first attempt again
                 fails.append(['preferred-family-not-used-by-later-connections', 'argv %r: families of the audit connections %r, preferred %d' % (argv, audit_conns.get(t['text']), pref)])
     # labels
+    if case.get('resolver_hiccup') and any(not by_target.get(t['text']) for t in targets):
+        return mkres(case, nt=nt, classes=cl + ['target-given-up-after-resolver-failure'], fails=fails)     # (what is printed for a target that could not be reached is C08's)
     if case.get('policy'):
         if case['json']:
             try:
@@ -228,7 +237,7 @@ def strat_case():
     tgt = st.tuples(host, port, st.integers(0, 5), st.sampled_from(['v4', 'v6', 'both46', 'both64', 'mixed464', 'mixed646', 'many', 'linklocal', 'linklocal+v4'])).map(target)
 
     def build(t):
-        tg, where, p_opt, fam, js, noise, n_extra, rate, pol, view = t
+        tg, where, p_opt, fam, js, noise, n_extra, rate, pol, view, extra = t
         targets = list(tg[:1 + (n_extra if where == 'file' else 0)])
         if where == 'file' and n_extra == 2 and len(targets) == 3:
             # the same host listed again on another port (a different target)
@@ -254,10 +263,15 @@ def strat_case():
             out[0]['ssh1'] = True             # one of the listed servers speaks protocol 1 only
         if pol and '-l' in view and view[view.index('-l') + 1] != 'info':
             view = [x for x in view if x not in ('-l', 'warn', 'fail')]        # the lines of a policy verdict are informational ones: a minimum level hides them by definition
-        return {'targets': out, 'where': where, 'p_opt': p_opt, 'fam': fam, 'json': js, 'noise': noise and where == 'file', 'rate': rate and where == 'cli' and not js and not pol, 'policy': pol, 'view': view}
+        c = {'targets': out, 'where': where, 'p_opt': p_opt, 'fam': fam, 'json': js, 'noise': noise and where == 'file', 'rate': rate and where == 'cli' and not js and not pol, 'policy': pol, 'view': view}
+        if extra == 'hiccup':
+            c['resolver_hiccup'] = True
+        elif extra == 'padding' and where == 'file':
+            c['padding'] = 1500
+        return c
     return st.tuples(st.lists(tgt, min_size=3, max_size=3), st.sampled_from(['cli', 'cli', 'file']), st.one_of(st.none(), st.none(), st.sampled_from([22, 2222, 1, 65535, 8022])), st.sampled_from(['', '', '', '-4', '-6', '-46', '-64', '-4', '-6', '-46', '-64', '-44', '-66', '-4 -4', '-6 -6', '-4 -6', '-6 -4', '-4 -6 -4', '-6 -4 -6', '-446', '-664']),
                      st.booleans(), st.booleans(), st.integers(0, 2), st.sampled_from([False, False, False, True]), st.sampled_from([False, False, True]),
-                     st.sampled_from([[], [], [], ['-l', 'warn'], ['-l', 'fail'], ['-b'], ['-v'], ['-b', '-l', 'fail'], ['-l', 'info']])).map(build)
+                     st.sampled_from([[], [], [], ['-l', 'warn'], ['-l', 'fail'], ['-b'], ['-v'], ['-b', '-l', 'fail'], ['-l', 'info']]), st.sampled_from([None] * 8 + ['hiccup', 'hiccup', 'padding'])).map(build)
 
 
 def strat_invalid():
